@@ -232,6 +232,33 @@ def site_guarded(sem, vis, bb, fact_pred):
     return False, "unguarded path: " + " <- ".join(chain)
 
 
+def always_passes(sem, vis, bb, allowed_pred, top):
+    """must-pass-through, lifted: starting at block `bb` of visit `vis` and moving up the call chain to visit `top`, is every
+    success exit of each level reachable only through the site (at that level: the block itself, then the call site of the level
+    below), once the edges carrying a fact accepted by `allowed_pred` are removed?  Returns (ok, description)."""
+    level, site = vis, bb
+    while True:
+        be = level.be
+        allowed = set()
+        for blk in level.body.blocks:
+            if blk.cleanup or blk.term.kind != "switch" or blk.idx not in be.cfg.live:
+                continue
+            for succ, fl in sem.edge_facts(be, blk.idx).items():
+                if any(allowed_pred(f, level.resolve) for f in fl):
+                    allowed.add((blk.idx, succ))
+        oks = [b for (b, idx, kind, x) in sem.ret_sites(be) if kind in ("ok", "call", "libcall", "unknown") and b in level.blocks]
+        if not be.body.ret_is_result():
+            oks = [b for b in be.cfg.exits() if b in level.blocks]
+        r = be.cfg.reach([0], removed=set(level.removed) | allowed, stop={site})
+        short = [b for b in oks if b in r and b != site]
+        if short:
+            return False, "%s can return successfully (line %s) without passing line %d, other than through the accepted edges" % (
+                level.body.path, sorted({level.body.blocks[b].term.line for b in short}), level.body.blocks[site].term.line)
+        if level is top or level.parent is None:
+            return True, "every success exit passes the site (%d accepted edge(s) at the last level)" % len(allowed)
+        level, site = level.parent
+
+
 def written_value_in(sem, visits, vis, kind, cell, val, expand_ws=True):
     """like Sem.written_value but, for update(closure), evaluated inside the closure's own
     specialised visit (infeasible arms of the closure pruned by the abstract environment)"""
